@@ -36,6 +36,9 @@ def run(res):
     add(10, {"tile_columns": 1, "tile_rows": 1}, "motion", 256, 256)
     add(8, {"tile_columns": 2, "tile_rows": 1}, "noise", 512, 128)
     add(8, {}, "motion", 192, 128, 10)
+    # tile columns of very different cost over several superblock rows: stage dependencies across tile columns
+    add(12, {"tile_columns": 2, "qp": 40, "intra_period_length": 3}, "lopsided", 352, 288)
+    add(8, {"tile_columns": 1, "tile_rows": 1, "qp": 30, "intra_period_length": 0}, "lopsided", 320, 256)
     add(8, {"enc_mode": 6}, "edges", 256, 128)                                   # loop restoration on (recorded finding)
     add(8, {"enc_mode": 6, "enable_restoration_filtering": 0}, "edges", 256, 128)
     if res.tier == "thorough":
@@ -45,7 +48,7 @@ def run(res):
         add(10, {"screen_content_mode": 1, "tile_columns": 1}, "screen", 256, 128)
         add(12, {"intra_period_length": 0}, "motion", 192, 192)
     rs = corpus.run_cases(cs, timeout=150)
-    threads = [1, 2, 3, 4, 8] if res.tier == "quick" else [1, 2, 3, 4, 5, 6, 8]
+    threads = [1, 2, 3, 4, 6, 8] if res.tier == "quick" else [1, 2, 3, 4, 5, 6, 7, 8]
     seeds = 2 if res.tier == "quick" else 5
     jobs = []
     for r in rs:
